@@ -235,6 +235,8 @@ func (e *Expr) makeCallable(closure compiler.Closure, env0 *types.Env) Callable 
 			return nil, err
 		}
 
+		// 运行时的失败(下标越界, key 不存在, 除零, 非法正则 ...)通过 error 返回, 不向宿主抛 panic
+		defer e.backStrace("eval", &err)
 		rt := env1.Inherit(e.runtime)
 		vl = closure(rt)
 		return
